@@ -31,9 +31,13 @@ def run_mutant(m, tier, budget, workers):
         b = sh(f"cd {wt} && go build ./... ")
         if b.returncode != 0:
             return m["id"], "NOCOMPILE", [b.stderr[:400]]
-        t = sh(f"cd {wt} && go test -vet=off -count=1 ./glow 2>&1 | tail -1")
-        if "ok" not in t.stdout:
-            return m["id"], "BASELINE-FAILS", [t.stdout.strip()]
+        if m["file"].startswith("glow/"):
+            # the pinned suite only has tests in package glow
+            for attempt in range(3):
+                t = sh(f"cd {wt} && go test -vet=off -count=1 ./glow 2>&1 | tail -1")
+                if "ok" in t.stdout: break
+            if "ok" not in t.stdout:
+                return m["id"], "BASELINE-FAILS", [t.stdout.strip()]
         caught = []
         for p in m["props"]:
             t0 = time.time()
